@@ -839,7 +839,7 @@ fn scenarios() -> Vec<Scenario> {
         sc("dos33-low-tracks", Fs::Dos33, "do", "a2-525-16", &[C01, C02, C04], sc_dos_low_tracks),
         sc("dos32-low-tracks", Fs::Dos32, "d13", "a2-525-13", &[C03, C04], sc_dos_low_tracks),
         // ProDOS volume with a two-block bitmap: allocation beyond block 4096, save / reload in mid-history
-        sc("prodos-bitmap-2-blocks", Fs::Prodos, "po", "a2-hd-4600", &[C01, C02, C04, C06], sc_prodos_bitmap2),
+        sc("prodos-bitmap-2-blocks", Fs::Prodos, "po", "a2-hd-4600", &[C01, C02, C06], sc_prodos_bitmap2),
         Scenario { name: "prodos-bitmap-16-blocks", fs: Fs::Prodos, container: "po", kind_name: "a2-hd-max", foci: &[C02, C06], thorough_only: true, script: sc_prodos_bitmap2 },
         // ProDOS sparse tree files at exact fit and one block short
         sc("prodos-sparse-exact-fit", Fs::Prodos, "po", "a2-525-16", &[C01, C02, C03, C04], sc_prodos_sparse_fit),
